@@ -209,3 +209,80 @@ def eval_cell(cd: CellDef, luts, prefix_rows, weights):
     if pending:
         raise ValueError(f'unresolvable or cyclic definitions: {[p[0] for p in pending]}')
     return {o: val[o] for o in cd.outputs_declared if o in val}, n
+
+
+# --------------------------------------------------------------------------- implementation graphs (for C10)
+
+class GNode:
+    def __init__(self, name, kind):
+        self.name, self.kind = name, kind
+        self.ins, self.outs = [], []
+        self.index = None
+
+    def __repr__(self):
+        return f'{self.kind}:{self.name}'
+
+
+class GLine:
+    def __init__(self, driver, driver_pin, reader, reader_pin):
+        self.driver, self.driver_pin, self.reader, self.reader_pin = driver, driver_pin, reader, reader_pin
+        while len(driver.outs) <= driver_pin:
+            driver.outs.append(None)
+        while len(reader.ins) <= reader_pin:
+            reader.ins.append(None)
+        driver.outs[driver_pin] = self
+        reader.ins[reader_pin] = self
+
+
+class GCircuit:
+    def __init__(self):
+        self.nodes, self.lines, self.io_nodes = [], [], []
+        self.forks, self.cells = {}, {}
+
+    def fork(self, name):
+        if name not in self.forks:
+            n = GNode(name, '__fork__')
+            self.forks[name] = n
+            self.nodes.append(n)
+        return self.forks[name]
+
+    def line(self, d, r):
+        dp = next((i for i, x in enumerate(d.outs) if x is None), len(d.outs))
+        rp = next((i for i, x in enumerate(r.ins) if x is None), len(r.ins))
+        l = GLine(d, dp, r, rp)
+        self.lines.append(l)
+        return l
+
+
+def impl_graph(cd: CellDef):
+    """The implementation circuit TechLib builds for a definition: bench semantics (cell + same-named fork per
+    assignment, drivers in argument order, io forks in statement order) followed by 1:1 fork elimination
+    (non-io forks with exactly one output are spliced out). Mirrors bench.BenchTransformer and
+    Circuit.eliminate_1to1_forks; both are checked structurally by C10/C19 rules."""
+    c = GCircuit()
+    # statement order matters for node order: replay declarations and assignments in text order
+    # (CellDef keeps them separately; interface statements only create forks, order among forks is irrelevant here)
+    for d, n in cd.decl:
+        c.io_nodes.append(c.fork(n))
+    for tgt, kind, args in cd.assigns:
+        cell = GNode(tgt, kind)
+        c.cells[tgt] = cell
+        c.nodes.append(cell)
+        c.line(cell, c.fork(tgt))
+        for a in args:
+            c.line(c.fork(a), cell)
+    ios = set(id(n) for n in c.io_nodes)
+    for n in list(c.forks.values()):
+        if id(n) in ios or len(n.outs) != 1:
+            continue
+        il, ol = n.ins[0] if n.ins else None, n.outs[0]
+        if il is None:
+            continue
+        c.nodes.remove(n)
+        del c.forks[n.name]
+        c.lines.remove(ol)
+        il.reader, il.reader_pin = ol.reader, ol.reader_pin
+        il.reader.ins[il.reader_pin] = il
+    for i, n in enumerate(c.nodes):
+        n.index = i
+    return c
